@@ -197,6 +197,10 @@ impl<'a, 'b> G<'a, 'b> {
             "/* plain comment mentioning @jsx mid sentence */",
             "/**\n * @jsx h\n */",
             "/* jsx h */",
+            "/* @jsx custo? */",
+            "/** @jsx 1x */",
+            "// @jsx a..b",
+            "/* @jsx Vue.h */",
         ];
         let i = self.c.pick(texts.len());
         if i >= 4 {
